@@ -4,7 +4,7 @@ from .types import *
 
 class FnSpec:
     def __init__(self, qual, params=None, ret=None, requires=None, ensures=None, raises=None, loops=None,
-                 ghost=None, locals=None, modifies=None, witness=None, pure=False, exit_hints=None, call_ghosts=None):
+                 ghost=None, locals=None, modifies=None, witness=None, pure=False, exit_hints=None, call_ghosts=None, assigns=None):
         self.qual = qual
         self.params = dict(params or {})         # name -> Ty  (includes ghost params)
         self.ret = ret
@@ -17,12 +17,13 @@ class FnSpec:
         self.modifies = modifies                 # None = everything reachable from params may change; else list of path strings
         self.witness = witness
         self.pure = pure
+        self.assigns = list(assigns or [])       # fields this method definitely assigns before reading them (it may be called on a partially constructed object)
         self.call_ghosts = dict(call_ghosts or {})   # callee qualname -> {ghost param: expr in the caller's state}
         self.exit_hints = dict(exit_hints or {})   # proved at every normal exit, then assumed for the postconditions
 
 class ClassSpec:
     def __init__(self, name, fields, inv=None, properties=None, bases=None):
-        self.name = name; self.fields = dict(fields); self.inv = dict(inv or {}); self.properties = dict(properties or {})
+        self.name = name; self.fields = dict(fields); self.inv = dict(inv or {}); self.properties = dict(properties or {}); self.bases = list(bases or [])
         self.ty = RecT(name, self.fields)
 
 class SpecFun:
@@ -41,8 +42,8 @@ class Lemma:
 class Module:
     def __init__(self, relpath):
         self.relpath = relpath; self.classes = {}; self.fns = {}
-    def cls(self, name, fields, inv=None, properties=None):
-        c = ClassSpec(name, fields, inv, properties); self.classes[name] = c; return c
+    def cls(self, name, fields, inv=None, properties=None, bases=None):
+        c = ClassSpec(name, fields, inv, properties, bases); self.classes[name] = c; return c
     def fn(self, qual, **kw):
         f = FnSpec(qual, **kw); self.fns[qual] = f; return f
 
@@ -72,6 +73,16 @@ class Registry:
             if qual in m.fns: return m, m.fns[qual]
         raise KeyError(qual)
     def has_fn(self, qual): return any(qual in m.fns for m in self.modules.values())
+    def resolve_method(self, clsname, meth):
+        """qualified name of the contract that a call of `meth` on an object of class `clsname` is checked against (the class itself, then its declared bases)"""
+        seen = set(); todo = [clsname]
+        while todo:
+            c = todo.pop(0)
+            if c in seen: continue
+            seen.add(c)
+            if self.has_fn(f"{c}.{meth}"): return f"{c}.{meth}", c
+            if self.has_cls(c): todo += self.cls(c).bases
+        return None, None
     def tree(self, relpath):
         if relpath not in self._ast:
             self._ast[relpath] = ast.parse(self.virtual[relpath] if relpath in self.virtual else open(os.path.join(self.repo, relpath)).read())
